@@ -45,7 +45,7 @@ def make_case(rng, big=False, small=False):
         n = rng.randint(1, 40 if big and rng.random() < 0.3 else 12)
         H = rng.choice([4, 8, 16, 32] + ([64, 128, 200] if big else []))
     start = rng.choice([0, 0, 1, 3, 7, td, 5 * td])
-    neg = rng.random() < 0.04
+    neg = rng.random() < 0.08
 
     # ------------------------------------------------------------------ pitches
     piano_range = rng.random() < 0.25
